@@ -6,6 +6,7 @@ x final newline {present, absent} x blank first/last lines x v2 and legacy patte
 project files.  The real `update` runs in-process (UTF-8) and as `python -m bumpver` in a child interpreter with
 LC_ALL=C, UTF-8 mode off.  Every byte outside the occurrence spans must survive; bystanders keep bytes and mtime.
 """
+import itertools
 import os
 import subprocess as sp
 import sys
@@ -80,6 +81,33 @@ def content_table(fps_sets, fill, tier):
                                f"{regime if '+' in regime else 'single-separator'}", f)
 
 
+def shared_entry_projects(st, pat, label, old, new, fmt):
+    """Several files reached through ONE glob entry, one of them named again by a later (or earlier) explicit entry with another
+    pattern; the sibling files contain text that the other pattern WOULD match - it is not configured for them and must stay."""
+    singles = [s_[0] for s_ in projgen.pattern_subsets(pat, 1) if not (s_[0].anchor_l or s_[0].anchor_r)]
+    if fmt == "setup.cfg":
+        singles = [fp for fp in singles if pt.ini_expressible(fp.raw)]
+    done = 0
+    for a, b in itertools.permutations(singles, 2):
+        if not pt.compatible([a, b], old, new) or b.old_text(old) == b.old_text(new):
+            continue  # (the explicit entry's pattern must change with the bump, otherwise a rewrite of the decoy would not show)
+        decoy = "decoy: " + b.old_text(old) + " (not configured for this file)"
+        if a.ref_search(decoy, None):
+            continue
+        for order in ("glob-first", "explicit-first"):
+            fx = projgen.build_file("src/x.txt", [a, b], "own-lines", "ascii", "LF", True)
+            fy = projgen.build_file("src/y.txt", [a], "own-lines", "ascii", "CRLF", True, near_miss=[decoy])
+            fz = projgen.build_file("src/z.txt", [a], ("repeat", 2), "ascii", "LF", False, near_miss=[decoy])
+            ents = [("src/*.txt", [a.raw]), ("src/x.txt", [b.raw])]
+            if order == "explicit-first":
+                ents.reverse()
+            c03.run_project(st, pat, label, old, new, fmt, f"shared-entry:{a.pid}+{b.pid}:{order}", "glob-entry-shared-by-several-files", [fx, fy, fz], ents, False,
+                            want=("bytes", "occurrence"), prefix="C04")
+        done += 1
+        if done >= 3:
+            break
+
+
 def fps_sets_for(pat, old, new, fmt):
     subsets = [s for s in projgen.pattern_subsets(pat, 2) if pt.compatible(s, old, new)]
     if fmt == "setup.cfg":
@@ -105,6 +133,8 @@ def run_chunk(chunk):
             c03.run_project(st, pat, label, old, new, fmt, lid, arrangement, [f], [("a.txt", [fp.raw for fp in f.patterns])], False,
                             want=("bytes",), prefix="C04", cfg_eol="\r\n" if ":CRLF:" in lid else "\n")  # a CRLF project has a CRLF config file
             n += 1
+        if fill == "ascii":
+            shared_entry_projects(st, pat, label, old, new, fmt)
         if idx == 0 and fill == "astral":
             st.sample({"pattern": pat.text, "filler": fill, "projects": n, "last_layout": lid})
     elif kind == "legacy":
